@@ -146,7 +146,12 @@ def r183(ctx):
                 ok = A.eq(arg(apps[0], 0), A.spec(direct, b))
         ctx.ob("R18.3", fn, apps[0].node if apps else None, ok, "one result per quantile, rebuilt with the first sample's labels",
                construct="quantile results")
-    # dispatcher
+    # the dispatcher and the alignment are a rule group of their own (written with comprehensions where the routines above use
+    # loops: each side may need its own normal form)
+    ctx.guard(_r183_dispatch_align, ctx)
+
+
+def _r183_dispatch_align(ctx):
     A2 = Analysis(ctx, no_inline=[M_BS + ":_calc_series_quantiles", M_BS + ":_calc_dataframe_quantiles"])
     r = A2.run(M_BS + ":calculate_pandas_quantiles")
     P = r.params
